@@ -152,8 +152,9 @@ pub struct LazyPlan {
     /// legal schedule (chunking / short reads / EINTR) of the per-class byte source
     #[serde(default)]
     pub io: IoPlan,
-    /// (k, call): the k-th class parse of this jar (read / visit, counted from 0) meets an I/O error at its `call`-th
-    /// read - once; the class is parsed from a stream, so the error arrives in the middle of the class reader
+    /// (k, permille): the k-th class parse of this jar (read / visit, counted from 0) meets an I/O error when it first
+    /// touches the byte at `permille` thousandths of the class - once; the class is parsed from a stream, so the
+    /// error arrives in the middle of the class reader
     #[serde(default)]
     pub read_fault: Option<(u32, u32)>,
     /// non-zero: `names()` lists the entries in another order (drawn from this seed) than `entry_keys()`; the trait
@@ -168,7 +169,7 @@ impl LazyPlan {
         let mut fail_at: Vec<u32> = (0..z.below(3)).map(|_| z.below(span.max(1)) as u32).collect();
         fail_at.sort();
         fail_at.dedup();
-        let read_fault = if z.chance(35) { Some((z.below(parses.max(1)) as u32, z.below(40) as u32)) } else { None };
+        let read_fault = if z.chance(35) { Some((z.below(parses.max(1)) as u32, z.below(1000) as u32)) } else { None };
         if read_fault.is_some() && z.chance(60) {
             fail_at.clear();
         }
@@ -327,7 +328,7 @@ impl<'j> LazyClass<'j> {
             (s.ops as u64, k)
         };
         let faults = match self.0.plan.read_fault {
-            Some((which, call)) if which == k => vec![crate::simio::Fault::Eio { at_call: call, sticky: false }],
+            Some((which, permille)) if which == k => vec![crate::simio::Fault::EioOnceAtOffset { off: self.1.len() as u64 * permille.min(999) as u64 / 1000 }],
             _ => vec![],
         };
         let plan = IoPlan { seed: self.0.plan.io.seed ^ n.wrapping_mul(0x9E37_79B9_7F4A_7C15), faults, ..self.0.plan.io.clone() };
